@@ -386,6 +386,9 @@ func (sc *SpecCtx) binary(x *SExpr) Val {
 		}
 		return mk(fmt.Sprintf("(godiv %s %s)", a.C[0], b.C[0]))
 	case "%":
+		if _, signed, ok := bitsOf(a.T); ok && !signed {
+			return mk(fmt.Sprintf("(mod %s %s)", a.C[0], b.C[0]))
+		}
 		return mk(fmt.Sprintf("(gomod %s %s)", a.C[0], b.C[0]))
 	}
 	sc.fail("operator %s", op)
@@ -423,6 +426,16 @@ func (sc *SpecCtx) resolveType(name string) types.Type {
 	if strings.HasPrefix(name, "*") {
 		ptr = true
 		name = name[1:]
+	}
+	if strings.Contains(name, "[") {
+		// instantiated generic type as it appears in the function under verification (e.g. TraitEntryOf[V])
+		if t := e.typeByString(name); t != nil {
+			if ptr {
+				return types.NewPointer(t)
+			}
+			return t
+		}
+		sc.fail("type %q does not occur in the function under verification", name)
 	}
 	obj := e.P.TPkg.Scope().Lookup(name)
 	if tn, ok := obj.(*types.TypeName); ok {
